@@ -37,6 +37,12 @@ PROPS = {
         "assumptions": [],
         "out_of_reach": ["BerlekampMasseyDecoder: converts every received bit with int(round(.item())) (full concretisation) and its correctness is the Berlekamp-Massey/Chien theorem: bounded stand-in only (exhaustive over all codewords x all patterns of weight <= t where that product is small, seeded sample otherwise); its field operations are under contract in C18", "ReedMullerDecoder (majority logic): .item()-driven loops over partitions: bounded stand-in only"],
     },
+    "C12": {
+        "level": "proof",
+        "trusted_base": ["RNG contract stub: torch.rand_like is replaced by fresh symbols constrained to [0,1); the draws are universally quantified inputs of every obligation", "moment lemma L-moment: P(u < p) = p for u uniform on [0,1) and p in [0,1]; distinct symbols are independent"],
+        "assumptions": ["torch.rand_like yields independent uniform [0,1) variates (assumed contract on the dependency, never proved here)", "bipolar inputs contain at least one -1 (this is how the channels recognise the format; part of the precondition)"],
+        "out_of_reach": ["the statistical statement itself (empirical rates) - it follows from the proved per-element law plus the RNG contract and is not sampled"],
+    },
 }
 
 # per-property META dicts contributed by separate modules (vk/meta_c18.py, vk/meta_c19.py, ...)
